@@ -244,7 +244,18 @@ class ChangeDistiller:
             else:
                 edit_script.append(Update(source_node, target_node))
 
-        return edit_script
+        # A node can be found to have moved both on its own and as an argument of its parent
+        moved: set[tuple[int, int]] = set()
+        unique_edit_script: list[Edit] = []
+        for edit in edit_script:
+            if isinstance(edit, Move):
+                key = (id(edit.source), id(edit.target))
+                if key in moved:
+                    continue
+                moved.add(key)
+            unique_edit_script.append(edit)
+
+        return unique_edit_script
 
     def _generate_move_edits(
         self, source: exp.Expr, target: exp.Expr, matchings: dict[int, int]
